@@ -943,6 +943,25 @@ def _run_grain(case, R, rng):
         _chk(R, 'gg_freeze', (not st) and dt_clock <= TOL_ARITH and len(gm.time) > nrec0, dict(mech, what='clock_not_advanced'),
                 clock=float(gm.time[-1]), expected=t0 + t_hold, steps=watch.steps[variant])
         R.observe('grain_steps_' + variant, watch.steps[variant])
+        # the public coupling entry point under the same (frozen) drag: the grain clock must follow the host clock
+        # (added after seeded change C18-a: an early return for a fully pinned structure skipped the clock update)
+        for j in range(3):
+            tprev = float(gm.time[-1])
+            dt_h = t_hold * float(rng.uniform(0.05, 0.5))
+            host.pData.time = np.array([tprev, tprev + dt_h])
+            host.pData.Ravg = np.vstack([host.pData.Ravg[-1], host.pData.Ravg[-1]])
+            host.pData.volFrac = np.vstack([host.pData.volFrac[-1], host.pData.volFrac[-1]])
+            host.pData.n = 1
+            nrec = len(gm.time)
+            try:
+                gm.updateCoupledModel(host)
+            except StopRun:
+                break
+            dclk = abs(float(gm.time[-1]) - (tprev + dt_h)) / (tprev + dt_h)
+            _chk(R, 'coupled_clock', dclk <= TOL_ARITH and len(gm.time) > nrec,
+                 {'host': 'stub', 'regime': variant, 'grain_solver': cfg['solver']},
+                 host_clock=tprev + dt_h, grain_clock=float(gm.time[-1]), z=float(gm._z), critical=zc)
+            R.observe('stub_host_steps_frozen')
     R.info['steps'] = dict(watch.steps)
     R.info['rate_evaluations'] = watch.evals
     R.set_nontrivial(watch.steps['free'] >= 30)
@@ -1048,6 +1067,9 @@ def _run_coupled(case, R, rng):
                               solverType=SolverType.RK4 if cfg['grain_solver'] == 'rk4' else SolverType.EXPLICITEULER)
         gm.setGrainBoundaryMobility(_loguni(rng, -15.0, -13.5))
         gm.LoadDistribution(rng.lognormal(np.log(1e-6), 0.2, 50000))
+        if rng.random() < 0.6:      # strong pinning: the structure freezes once a small precipitate fraction exists
+            gm.setZenerParameters(float(rng.choice([0.5, 0.3, 0.2])), float(rng.choice([4.0 / 3.0, 1.8, 0.5])))
+            cfg['strong_pinning'] = True
     coupled = [m for m in ((sm, gm) if cfg['order'] == 'strength_first' else (gm, sm)) if m is not None]
     for m in coupled:
         model.addCouplingModel(m)
